@@ -200,6 +200,7 @@ func register(p *Prop) { props[p.ID] = p }
 type Env struct {
 	T        *testing.T
 	ch       *chooser
+	sub      *chooser // when set: a loose replay of a recorded segment serves every choice
 	Tier     string
 	Counters map[string]int
 	stats    *runStats
@@ -229,7 +230,36 @@ func (e *Env) Draw(n int) int {
 	if n <= 1 {
 		return 0
 	}
-	return e.ch.Draw(n)
+	return e.chooser().Draw(n)
+}
+
+func (e *Env) chooser() *chooser {
+	if e.sub != nil {
+		return e.sub
+	}
+	return e.ch
+}
+
+// Mark / Segment / WithReplay let a property re-execute something under exactly the
+// choices (schedule picks, map iteration orders) of an earlier execution of the same run:
+// fault enumeration needs the faulted executions to follow the dry run up to the fault.
+type Mark struct{ s, d int }
+
+func (e *Env) Mark() Mark { return Mark{len(e.ch.out.Sched), len(e.ch.out.Draws)} }
+
+func (e *Env) Segment(m Mark) Choices {
+	return Choices{Sched: append([]int(nil), e.ch.out.Sched[m.s:]...), Draws: append([]int(nil), e.ch.out.Draws[m.d:]...)}
+}
+
+func (e *Env) WithReplay(seg Choices, f func()) {
+	old := e.sub
+	e.sub = &chooser{mode: modeLoose, in: seg}
+	simrt.SoloDraw = e.sub.Draw
+	defer func() {
+		e.sub = old
+		simrt.SoloDraw = e.chooser().Draw
+	}()
+	f()
 }
 
 // Known reports whether (clause,key) is a listed known finding; if so it is recorded.
@@ -251,7 +281,7 @@ type SimOpts struct {
 // Sim runs main as the first task of a fresh simulation under the run's choice stream.
 func (e *Env) Sim(opts SimOpts, main func()) *simrt.Result {
 	cfg := simrt.Config{
-		Chooser:   e.ch,
+		Chooser:   e.chooser(),
 		MaxSteps:  opts.MaxSteps,
 		FairSteps: opts.FairSteps,
 		KeepLog:   e.keepLog,
@@ -428,7 +458,7 @@ func cloneInput(p *Prop, in interface{}) interface{} {
 func shrinkCase(t *testing.T, p *Prop, in interface{}, meta caseMeta, cr caseResult, tier string) (interface{}, caseMeta, caseResult, int) {
 	clause := cr.fail.Clause
 	execs := 0
-	deadline := time.Now().Add(25 * time.Second)
+	deadline := time.Now().Add(12 * time.Second)
 	budget := 400
 	try := func(cand interface{}, m caseMeta, ch Choices) (caseResult, bool) {
 		if execs >= budget || time.Now().After(deadline) {
